@@ -139,9 +139,10 @@ example : deleteRangeReqs (fun _ => [[0x62], [0x6d]]) (fun _ i => layoutAt [[0x6
     some [⟨[0x61], [0x62]⟩, ⟨[0x62], [0x65]⟩, ⟨[0x65], [0x6d]⟩, ⟨[0x6d], [0x7a]⟩] := by decide
 
 /-- ResolveLocksForRange: when it returns, every lock of the initial population with start ts ≤ maxV and key in
-    `[s, e)` was part of a resolved batch — for any number of locks relative to the scan limit (≥ 1), any
-    layouts, any re-scans. -/
-theorem resolve_loop_visits_all (layouts : Nat → Layout) (retry : Nat → Bool) (maxV : Nat) (s e : Bytes)
+    `[s, e)` was removed by the handling of some scanned batch (by the batch's ResolveLock request, or — a primary
+    lock — by the forced status check of a batch containing a lock of the same transaction), for any number of
+    locks relative to the scan limit (≥ 1), any layouts, any pattern of re-scans. -/
+theorem resolve_loop_visits_all (layouts : Nat → Layout) (retry : Nat → Bytes → List Lock → Bool) (maxV : Nat) (s e : Bytes)
     (limit fuel : Nat) (pop : List Lock) (out : ResolveOut)
     (_hlim : 1 ≤ limit) (hsorted : Sorted pop) (hkeys : ∀ l ∈ pop, l.key ≠ [])
     (hrun : resolveLocksForRange layouts retry maxV s e limit fuel pop = some out) :
@@ -150,14 +151,15 @@ theorem resolve_loop_visits_all (layouts : Nat → Layout) (retry : Nat → Bool
   exact (resolveLoop_final layouts retry maxV s e limit pop hkeys fuel 0 s _ out (inv_init pop hsorted maxV s e) hrun).all
     l ⟨hl, hts, hr⟩
 
-/-- … and afterwards the store holds no lock with start ts ≤ maxV in `[s, e)`, while every lock that is above
-    maxV or outside the range is still there (nothing else is touched). -/
-theorem resolve_loop_clears_range (layouts : Nat → Layout) (retry : Nat → Bool) (maxV : Nat) (s e : Bytes)
+/-- … and afterwards the store holds no lock with start ts ≤ maxV in `[s, e)`; every lock above maxV is still
+    there, and so is every lock outside the range that is not a primary (primaries ≤ maxV anywhere may be rolled
+    back by the status check). -/
+theorem resolve_loop_clears_range (layouts : Nat → Layout) (retry : Nat → Bytes → List Lock → Bool) (maxV : Nat) (s e : Bytes)
     (limit fuel : Nat) (pop : List Lock) (out : ResolveOut)
     (_hlim : 1 ≤ limit) (hsorted : Sorted pop) (hkeys : ∀ l ∈ pop, l.key ≠ [])
     (hrun : resolveLocksForRange layouts retry maxV s e limit fuel pop = some out) :
     (∀ l ∈ out.pop, ¬ (l.ts ≤ maxV ∧ InRange s e l.key)) ∧
-    (∀ l ∈ pop, ¬ (l.ts ≤ maxV ∧ InRange s e l.key) → l ∈ out.pop) ∧
+    (∀ l ∈ pop, ¬ (l.ts ≤ maxV ∧ (InRange s e l.key ∨ l.primary = true)) → l ∈ out.pop) ∧
     (∀ l ∈ out.pop, l ∈ pop) := by
   have hf := resolveLoop_final layouts retry maxV s e limit pop hkeys fuel 0 s _ out (inv_init pop hsorted maxV s e) hrun
   refine ⟨?_, ?_, hf.sub⟩
@@ -167,13 +169,15 @@ theorem resolve_loop_clears_range (layouts : Nat → Layout) (retry : Nat → Bo
   · intro l hl hn
     apply Classical.byContradiction
     intro hnot
-    have := hf.only l hl hnot
-    exact hn ⟨this.2.1, this.2.2⟩
+    exact hn (hf.only l hl hnot)
 
-example : (resolveLocksForRange (fun _ => [[0x6d]]) (fun i => i == 1) 10 [] [] 2 20
-    [⟨[0x61], 5⟩, ⟨[0x62], 5⟩, ⟨[0x63], 11⟩, ⟨[0x64], 7⟩, ⟨[0x7a], 1⟩]).map (fun o => (o.batches, o.pop)) =
-    some ([[⟨[0x61], 5⟩, ⟨[0x62], 5⟩], [⟨[0x64], 7⟩], [⟨[0x7a], 1⟩]], [⟨[0x63], 11⟩]) := by decide
-example : Sorted [⟨[0x61], 5⟩, ⟨[0x62], 5⟩, ⟨[0x63], 11⟩, ⟨[0x64], 7⟩, ⟨[0x7a], 1⟩] := by unfold Sorted; decide
+example : (resolveLocksForRange (fun _ => [[0x6d]]) (fun i _ _ => i == 1) 10 [] [] 2 20
+    [⟨[0x61], 5, false⟩, ⟨[0x62], 5, false⟩, ⟨[0x63], 11, false⟩, ⟨[0x64], 7, false⟩, ⟨[0x7a], 5, true⟩]).map
+      (fun o => (o.batches, o.pop)) =
+    some ([[⟨[0x61], 5, false⟩, ⟨[0x62], 5, false⟩, ⟨[0x7a], 5, true⟩], [], [⟨[0x64], 7, false⟩], []],
+      [⟨[0x63], 11, false⟩]) := by decide
+example : Sorted [⟨[0x61], 5, false⟩, ⟨[0x62], 5, false⟩, ⟨[0x63], 11, false⟩, ⟨[0x64], 7, false⟩, ⟨[0x7a], 5, true⟩] := by
+  unfold Sorted; decide
 
 /-- CheckVisibility: with a fresh cache a read below the cached txn safe point is refused with aborted-by-GC
     and nothing is served; a read at the safe point or above is served. A stale cache serves nothing. -/
